@@ -166,3 +166,14 @@ Print Assumptions C03_rejects.
 Print Assumptions C03_total.
 Print Assumptions C03_id_prefix.
 Print Assumptions C03_oracle_spec_sound.
+
+(* all groups assembled (proofs/OracleSoundAll.v): whatever operation the driver is asked about - subtags, likely
+   subtags / direction / tables, language identifiers, locales, serde, macros - the MODEL's answer passes the
+   specification the oracle applies to it, provided the property has no view of its own for that operation;
+   operation names are not shared between groups (15 disjointness lemmas) *)
+From UL Require OracleSoundAll.
+Theorem C03_oracle_sound_all : forall prop op args,
+  OracleSoundAll.side_conditions op args -> Oracle.spec_for_property prop op args (Oracle.oracle_model op args) = None ->
+  OracleSound.passes (Oracle.oracle_spec prop op args (Oracle.oracle_model op args)).
+Proof. exact OracleSoundAll.oracle_sound. Qed.
+Print Assumptions C03_oracle_sound_all.
